@@ -48,6 +48,12 @@ func fpRun(input string, mult int) fpObs {
 		note("footprint run [" + input + " x" + strconv.Itoa(mult) + "]: " + status)
 		return fpObs{}
 	}
+	if sp.Proxy {
+		// the SOCKS5 proxy of the harness lives in the SAME process: its per-connection goroutines and descriptors wind down on
+		// their own schedule and would be counted as the crawler's (thorough-tier false alarm of monitor 4 under load); proxied
+		// runs are judged by the other monitors (quiescence, reactor idle, no body or temp file left, limiter table)
+		res.FDs, res.Goroutines = 0, 0
+	}
 	return fpObs{true, res.StateAtQuiet, res.Tokens, res.OpenBodies, res.TempFiles, res.Buckets, res.MaxBuckets, res.FDs, res.Goroutines}
 }
 
